@@ -13,6 +13,7 @@ import copy
 import hashlib
 import itertools
 import sys
+import warnings
 
 import numpy as np
 
@@ -187,6 +188,8 @@ def cases(ctx):
     n = ctx.budget(16, 400)
     for it in range(n):
         yield {'kind': 'solve_failpoint', 'seed': int(rng.integers(0, 2 ** 31)), 'rank': int(rng.integers(1, 4))}
+    for it in range(ctx.budget(16, 400)):
+        yield {'kind': 'reentrant', 'seed': int(rng.integers(0, 2 ** 31)), 'rank': int(rng.integers(2, 4))}
     for it in range(ctx.budget(120, 4000)):
         yield {'kind': 'prism_sys_history', 'seed': int(rng.integers(0, 2 ** 31)), 'rank': int(rng.integers(1, 3)), 'nsteps': int(rng.integers(2, 7))}
     n = ctx.budget(48, 1600)
@@ -208,10 +211,20 @@ def run_omit(ctx, case):
                 s.diameter.sigma[t, u] = 1.0
         ctx.hook('omission.diameter_missing_but_sigma_written')
     ctx.hook('omission.case')
+    strict = sum(map(len, case['omit'])) % 2 == 0
+    if strict:
+        # the user runs with warnings turned into errors (python -W error) and one diameter is not a multiple of dr: the library's
+        # "sigma is not on the grid" warning must not pre-empt the ValueError for the missing item
+        present = [t for t in sp['types'] if 'd:' + t not in case['omit']]
+        if present:
+            s.diameter[present[0]] = sp['d'][present[0]] + 0.037
+        ctx.hook('omission.warnings_as_errors')
     i0, c0 = _S['init'], _S['cost']
     before = digest(s)
     try:
-        with np.errstate(all='ignore'):
+        with np.errstate(all='ignore'), warnings.catch_warnings():
+            if strict:
+                warnings.simplefilter('error')
             if case['via'] == 'createPRISM':
                 s.createPRISM()
             else:
@@ -723,6 +736,38 @@ def run_prism_sys_history(ctx, case):
     ctx.nontrivial(case)
 
 
+class ReentrantOmega(pyPRISM.omega.Gaussian):
+    """a user's Omega subclass whose calculate() consults another, coarser PRISM problem first (e.g. to fit its own parameters):
+    building a PRISM object inside the construction of another one must not disturb the outer one"""
+    def calculate(self, k):
+        inner = pyPRISM.System(['x'], kT=1.0)
+        inner.domain = pyPRISM.Domain(length=32, dr=0.3)
+        inner.density['x'] = 0.1
+        inner.diameter['x'] = 0.9
+        inner.potential['x', 'x'] = pyPRISM.potential.HardSphere()
+        inner.closure['x', 'x'] = pyPRISM.closure.PercusYevick()
+        inner.omega['x', 'x'] = pyPRISM.omega.Gaussian(sigma=0.9, length=5)
+        inner.createPRISM()
+        return pyPRISM.omega.Gaussian.calculate(self, k)
+
+
+def run_reentrant(ctx, case):
+    rng = np.random.default_rng(case['seed'])
+    sp = G.easy_spec(rng, rank=int(case['rank']), L=64, dr=0.1)
+    first = sp['types'][0]
+    sp['om'][G.pk(first, first)] = {'t': 'G', 'N': int(rng.integers(2, 12)), 's': sp['d'][first]}
+    for t in sp['types'][1:]:
+        sp['om'][G.pk(t, t)] = {'t': str(rng.choice(['G', 'FJC'])), 'N': int(rng.integers(2, 12)), 's': sp['d'][t]}
+    s = G.build(sp)
+    os_ = sp['om'][G.pk(first, first)]
+    s.omega[G.lab(sp, first), G.lab(sp, first)] = ReentrantOmega(sigma=os_['s'], length=os_['N'])
+    ctx.hook('reentrant_construction')
+    with np.errstate(all='ignore'):
+        p = s.createPRISM()
+    check_wiring(ctx, p, sp, 'System whose first omega builds another PRISM object on another Domain while it is evaluated')
+    ctx.nontrivial(case)
+
+
 def run_tutorial(ctx, case):
     """the maintainers' sweeps (one System re-specified step by step): every PRISM object is wired from the System's state at that
     moment, and creating / solving it leaves the System as it was"""
@@ -749,6 +794,8 @@ def run_case(ctx, case):
         return run_tutorial(ctx, case)
     if k == 'prism_sys_history':
         return run_prism_sys_history(ctx, case)
+    if k == 'reentrant':
+        return run_reentrant(ctx, case)
     if k == 'omit':
         return run_omit(ctx, case)
     if k == 'snapshot':
